@@ -106,6 +106,30 @@ fn seqs_exact(n: usize, d: usize, memo: &mut BTreeMap<(usize, usize), Vec<S>>) -
     out
 }
 
+/// Streams every sequence with at most `max_nodes` nodes to `f` without materialising the
+/// whole space (only the sub-spaces of the tails are held in memory).
+pub fn for_each_sequence(max_nodes: usize, depth: usize, f: &mut dyn FnMut(&[S])) {
+    let mut memo = BTreeMap::new();
+    for n in 1..=max_nodes {
+        for k in 1..=n {
+            let firsts = stmts(k, depth, &mut memo);
+            if firsts.is_empty() {
+                continue;
+            }
+            let rests = seqs_exact(n - k, depth, &mut memo);
+            let mut buf: Vec<S> = Vec::with_capacity(max_nodes);
+            for first in &firsts {
+                for r in &rests {
+                    buf.clear();
+                    buf.push(first.clone());
+                    buf.extend(r.iter().cloned());
+                    f(&buf);
+                }
+            }
+        }
+    }
+}
+
 pub fn all_sequences(max_nodes: usize, depth: usize) -> Vec<Vec<S>> {
     let mut memo = BTreeMap::new();
     let mut out = vec![];
@@ -469,9 +493,11 @@ impl Property for C12 {
     fn fixed_parts(&self, ctx: &mut Ctx) -> Vec<Violation> {
         let mut out = vec![];
         let (n, d) = ctx.tier.pick((4, 2), (5, 3));
-        let all = all_sequences(n, d);
         let mut i = 0usize;
-        for seq in &all {
+        for_each_sequence(n, d, &mut |seq: &[S]| {
+            if out.len() > 10 {
+                return;
+            }
             for c4 in CONTEXTS.iter() {
                 i += 1;
                 if !ctx.shard_mine(i) {
@@ -489,15 +515,12 @@ impl Property for C12 {
                 let case = || json!({"context": format!("{:?}", c4), "source": render::pretty(&prog), "ir": serde_json::to_value(&prog).unwrap()});
                 if let Err(v) = judge(&prog, ctx, verdict.nontrivial, &case) {
                     out.push(v);
-                    if out.len() > 10 {
-                        return out;
-                    }
                 }
                 if verdict.nontrivial && i % 997 == 0 {
                     ctx.sample(prog.len(), || json!({"context": format!("{:?}", c4), "source": render::pretty(&prog)}));
                 }
             }
-        }
+        });
         out
     }
     fn judge_tape(&self, tape: &[u8], ctx: &mut Ctx) -> Judged {
